@@ -15,3 +15,4 @@ INVARIANT G_LawUnion
 INVARIANT G_LawIdentity
 INVARIANT G_LawImplConforms
 INVARIANT G_LawVel
+INVARIANT G_LawCompose
